@@ -5,7 +5,7 @@ From Coq Require Import String.
 From XSG.Model Require Import Strings Convert Necessity Element Parser Dom Spec Render Lexer.
 From XSG.Proofs Require Import StringsProofs NecessityProofs ElementProofs SkelProofs DomEquiv
                                SpecProofs ReprDefs ExactProofs EventLevel InferProofs LexerProofs LexerC11 LexerEmpty
-                               LexerCData LexerSer.
+                               LexerCData LexerSer UnionProofs AdmitProofs.
 
 Definition bdoc_ok (d : list bnode) : bool := bwf_forest d && starts_markup d.
 Definition abs_doc (d : list bnode) : list node := map babs d.
@@ -117,4 +117,77 @@ Proof.
   split; [vm_compute; reflexivity|]. split; [vm_compute; reflexivity|].
   split; [vm_compute; reflexivity|]. split; [vm_compute; discriminate|].
   split; [vm_compute; reflexivity|]. eexists. vm_compute. reflexivity.
+Qed.
+
+(* ---------- the bridge for every theorem that starts from `run_dom docs = Some e` ---------- *)
+Theorem bytes_run_iff : forall docs e, forallb bdoc_ok docs = true ->
+  (run_bytes (map ser_forest docs) = Ok e <-> run_dom (map abs_doc docs) = Some e).
+Proof.
+  intros docs e H. rewrite (bytes_run_ser docs H).
+  destruct (run_dom (map abs_doc docs)) as [x|]; cbn [of_opt]; split; intros E;
+    try discriminate; now inversion E.
+Qed.
+
+(* C06 from bytes: the order of the written documents, and a document supplied a second time *)
+Theorem bytes_C06_order : forall docs docs' m,
+  forallb bdoc_ok docs = true -> forallb bdoc_ok docs' = true ->
+  docs <> [] -> Forall (Forall wf_node) (map abs_doc docs) ->
+  Forall (fun p => elem_names p = [m]) (map abs_doc docs) ->
+  Permutation.Permutation docs docs' ->
+  exists e e', run_bytes (map ser_forest docs) = Ok e /\ run_bytes (map ser_forest docs') = Ok e'
+               /\ same_schema e e'.
+Proof.
+  intros docs docs' m H H' Hne Hw Hm Hp.
+  destruct (UnionProofs.run_dom_order (map abs_doc docs) (map abs_doc docs') m) as (e & e' & E & E' & S); auto.
+  - destruct docs; [congruence|discriminate].
+  - now apply Permutation.Permutation_map.
+  - exists e, e'. rewrite (bytes_run_ser docs H), (bytes_run_ser docs' H'), E, E'. auto.
+Qed.
+
+Theorem bytes_C06_idem : forall docs d m,
+  forallb bdoc_ok docs = true ->
+  docs <> [] -> Forall (Forall wf_node) (map abs_doc docs) ->
+  Forall (fun p => elem_names p = [m]) (map abs_doc docs) ->
+  In d docs ->
+  exists e e', run_bytes (map ser_forest docs) = Ok e /\ run_bytes (map ser_forest (docs ++ [d])) = Ok e'
+               /\ same_schema e e'.
+Proof.
+  intros docs d m H Hne Hw Hm Hin.
+  destruct (UnionProofs.run_dom_idem (map abs_doc docs) (abs_doc d) m) as (e & e' & E & E' & S); auto.
+  - destruct docs; [congruence|discriminate].
+  - now apply in_map.
+  - assert (Hd : forallb bdoc_ok (docs ++ [d]) = true).
+    { rewrite forallb_app, H. cbn [forallb andb]. rewrite forallb_forall in H. now rewrite (H d Hin). }
+    exists e, e'. rewrite (bytes_run_ser docs H), (bytes_run_ser _ Hd), map_app, E. cbn [map].
+    rewrite E'. auto.
+Qed.
+
+(* C01 from bytes: the tree inferred from the written documents admits every one of them *)
+Theorem bytes_C01_tree_admits : forall docs m e,
+  forallb bdoc_ok docs = true ->
+  docs <> [] -> Forall (Forall wf_node) (map abs_doc docs) ->
+  Forall (fun p => elem_names p = [m]) (map abs_doc docs) ->
+  run_bytes (map ser_forest docs) = Ok e ->
+  forall d r, In d docs -> doc_root (abs_doc d) = Some r -> TreeAdmits e r.
+Proof.
+  intros docs m e H Hne Hw Hm He d r Hin Hr.
+  apply (bytes_run_iff docs e H) in He.
+  apply (AdmitProofs.tree_admits (map abs_doc docs) m e) with (d := abs_doc d); auto.
+  - destruct docs; [congruence|discriminate].
+  - now apply in_map.
+Qed.
+
+(* C09 from bytes: attributes and children in order of first appearance in the written documents *)
+Theorem bytes_C09_first_appearance : forall docs e,
+  forallb bdoc_ok docs = true ->
+  docs_ok (map abs_doc docs) = true -> Forall (Forall wf_node) (map abs_doc docs) ->
+  run_bytes (map ser_forest docs) = Ok e ->
+  forall p x, node_at e p = Some x ->
+    map snd (eattrs (snd x)) = dedup (flat_map oattrs (occs p (doc_roots (map abs_doc docs))))
+    /\ map cname (isort by_pos (echildren (snd x)))
+       = dedup (flat_map okidnames (occs p (doc_roots (map abs_doc docs)))).
+Proof.
+  intros docs e H Hd Hw He p x Hx. apply (bytes_run_iff docs e H) in He. split.
+  - now apply (C09_first_appearance_attrs_l (map abs_doc docs) e).
+  - now apply (C09_first_appearance_children_l (map abs_doc docs) e).
 Qed.
